@@ -143,7 +143,16 @@ def check(df, date, S, opts):
         base = env.simulate(df, date, targets=base_targets, rounding=opts["rounding"])
     except Exception as e:  # noqa: BLE001
         base, base_error = None, e
-    data = with_extra(df, opts["extra"], [c for c in opts.get("extra_derived", []) if c not in S], opts.get("index", "range"))
+    def _base(name):
+        m = _UNIT.match(name)
+        return (m.group("base"), m.group("g") or "") if m else (name, "")
+
+    # an extra column named like another unit of a rule is "unused" only as long as no *derived*
+    # sibling of it (same quantity, third unit) is requested: that one may legitimately be
+    # converted from the supplied column instead of from the rule
+    s_bases = {_base(t) for t in S}
+    derived_extra = [c for c in opts.get("extra_derived", []) if c not in S and _base(c) not in s_bases]
+    data = with_extra(df, opts["extra"], derived_extra, opts.get("index", "range"))
     arg = {c: data[c] for c in data.columns} if opts["as_dict"] else data
     try:
         res = env.simulate(arg, date, targets=list(S), rounding=opts["rounding"], debug=opts["debug"],
